@@ -10,7 +10,7 @@ import vf
 
 LEVEL = "model_checking"
 PARTS = 4          # driver + trace validation pipelines run side by side
-RAND = {"quick": (60, 60), "thorough": (5000, 1500)}   # seeded random splits per corpus stream / per long stream
+RAND = {"quick": (60, 60), "thorough": (10000, 2000)}   # seeded random splits per corpus stream / per long stream
 MAX_REPORT = 6     # VIOLATION lines per run (one per stream / kind of cut)
 
 
